@@ -40,7 +40,9 @@ TRUSTED = [
     'inversion theorem) -- tied by print-text; the Python syntax of ${...} / {% python %} sources is judged by CPython',
     'not modelled, only exercised: expat and MarkupTemplate._parse (markup source -> parsed stream), genshi.template.eval '
     '(expressions are re-implemented for a mini language: names, None/bool/int/str/list/dict literals, ==, not, len, indexing), '
-    'Attrs.__or__ (C18 model), the serializer; custom delimiters of NewTextTemplate; line numbers / offsets of the events',
+    'Attrs.__or__ (C18 model), the serializer; line numbers / offsets of the events; custom delimiters of NewTextTemplate '
+    'whose directive end starts with a word character or a blank (outside the side condition of Model/TmplScanD.lean; inside it the '
+    'parameterised scanner is tied by text-scan-tokens-delims / text-scan-parse-delims)',
     'outside the model: py:match, <?python?>, xi:include, i18n directives, *args/**kwargs parameters of py:def (defaults and keyword arguments are modelled), tuple '
     'unpacking in py:for / py:with, interpolated attribute values, py: attributes on directive elements (known finding)',
     'the documentation semantics `doc` is a formalisation of doc/xml-templates.rst / text-templates.rst by hand; where '
